@@ -393,9 +393,6 @@ func RespBody(rid, n int) []byte {
 	for i := range b {
 		b[i] = tag[i%len(tag)]
 	}
-	if n > 8 {
-		copy(b[n-4:], "END"+strconv.Itoa(rid%10))
-	}
 	return b
 }
 
